@@ -90,6 +90,7 @@ theorem missingOK_of_frag (env : Env) (p : Bool) (s : Spec) (hs : frag s = true)
       simp only [apply, Spec.flags] at h ⊢
       exact fin f _ rfl (fun w w' hw hk => (typeCheck_ok env _ w w' hw hk).2.1) h
   | union cands f => simp [frag] at hs
+  | callable f => simp [frag] at hs
   | list elem mn mx f =>
     simp only [apply, Spec.flags] at h ⊢
     refine fin f _ rfl (fun w w' hw hk => ?_) h
